@@ -10,6 +10,9 @@ DEDUCTIVE = [
     {"module": "rnapolis.annotator", "sidecar": "contracts.annotator_c",
      "targets": ["detect_saenger", "detect_bph_br_classification", "find_stackings"]},
     {"module": "rnapolis.tertiary", "sidecar": "contracts.annotator_c", "targets": ["Residue3D.find_atom", "Residue3D.__lt__"]},
+    # (added by the C03 builder) contact-soundness sentence of C11 on the pre-merge lists of find_pairs; assumptions as in props/C03.py
+    {"module": "rnapolis.annotator", "sidecar": "contracts.annotator_pairs_c", "targets": ["find_pairs@bph"],
+     "opts": {"z3_probe_ms": 400, "cvc5_probe_s": 8, "z3_first_ms": 1000}},
 ]
 TRUSTED = [
     "CPython 3.12 (enum lookup by name, dict lookup, f-strings, tuple comparison as encoded by pyvc)",
@@ -48,12 +51,17 @@ EXPLANATION = (
     "detect_bph_br_classification can return) for ONE residue pair (109,600 inputs): exactly one key, exactly one class, the class lies in the merged set (3 and 5 "
     "together count as 4, 7 and 9 as 8, so 3/5 resp. 7/9 are never reported when both were present), plus all two-pair inputs with up to 2 classes per pair "
     "(independence of pairs on that domain). For (d) this is a finite check, not a proof for arbitrary input lists: independence of different pairs beyond that domain "
-    "and insensitivity to repeated triples are not proved (the function needs OrderedSet/defaultdict objects allocated inside loops, which pyvc does not model soundly yet). "
+    "and insensitivity to repeated triples are not proved (out of reach for now: the function mutates OrderedSet objects created by a defaultdict factory inside its loops and reached through dict values; pyvc has no model of a defaultdict whose factory allocates objects, and OrderedSet is not modelled). "
     "Stackings: find_stackings is under contract (the C04 contract, see props/C04.py for its assumptions: distinct centroids and identifiers of participating residues, "
     "assumed KD-tree / sorted / sum contracts): every reported stacking joins two different participating residues of the analysed model, lists the lower one "
     "(model, chain, number, insertion code) first, no residue pair is reported twice, and the list is sorted by that order. "
     "What stays bounded: all list-level clauses of C11 on find_pairs output (no repeats, no self pairs, participants in the model, orientation, sorting, contact soundness, "
-    "one class per pair end to end)."
+    "one class per pair end to end). "
+    "find_pairs@bph (contracts/annotator_pairs_c.py, prefix contract on the real find_pairs, assumptions and trusted externals as listed in props/C03.py): every triple "
+    "appended to base_phosphate_pairs / base_ribose_pairs (the lists handed to merge_and_clean_bph_br) runs from a base donor atom (donor name of the pinned table that "
+    "is not also an acceptor name) of its first residue to a phosphate (OP1/OP2/O5'/O3') / ribose (O4'/O2') oxygen of its second residue, the two atoms are a pair of "
+    "the KD-tree pair set (within 4.0 A), fail the label/auth same-residue test and belong to two different residues; `used_atoms` is exactly the set of atoms of "
+    "recorded contacts and no atom takes part in two of them."
 )
 
 def bounded(tier, seed):
